@@ -61,6 +61,25 @@ def gen_shared_target(rng: random.Random) -> dict:
     return {"program": [{"name": "g0", "nodes": nodes, "bound": []}], "values": [["x", rng.randint(0, 3)], ["i", rng.randint(0, 3)]], "cfg": {}}
 
 
+def gen_nested_gated(rng: random.Random) -> dict:
+    """A gated graph used as a nested node whose outputs are partly RENAMED on the wrapper; every inner output has an outer consumer:
+    the outputs of branches that were not selected inside must not appear outside (their consumers must not start)."""
+    from .c20 import prefix_graph
+
+    c = gen.gen_gated_dag(rng, max_nodes=6, p_closed=rng.choice([0.2, 0.6, 1.0]), allow_mutex=False)
+    inner = prefix_graph(c["program"][0], "i_")
+    inner["name"] = "inner"
+    outs = [o for n in inner["nodes"] for o in n.get("dataOuts", [])]
+    ren = [[o, "r_" + o] for o in outs if rng.random() < 0.4]
+    cur = {o: dict(ren).get(o, o) for o in outs}
+    outer_nodes: list[dict] = [{"name": "w", "kind": "graph", "inner": 0, "inRen": [], "outRen": ren}]
+    for j, o in enumerate(outs):
+        outer_nodes.append({"name": f"use{j}", "kind": "fn", "params": [[cur[o], None]], "dataOuts": [f"u{j}"], "body": {"b": "tag", "t": f"use{j}"}})
+    rng.shuffle(outer_nodes)
+    values = [["i_" + k, v] for k, v in c["values"]]
+    return {"program": [inner, {"name": "outer", "nodes": outer_nodes, "bound": []}], "values": values, "cfg": {}}
+
+
 class C03(RunProp):
     id = "C03"
     level = "proof"
@@ -78,7 +97,12 @@ class C03(RunProp):
             if r < 0.1:
                 c = gen_shared_target(rng)
                 c["kind"] = "dag"
-            elif r < 0.2:
+            elif r < 0.18:
+                c = gen_nested_gated(rng)
+                c["kind"] = "nested"
+            elif False:
+                pass
+            elif r < 0.26:
                 c = gen.gen_nested_gate_loop(rng)
                 c["kind"] = "loop"
             elif r < 0.75:
